@@ -271,8 +271,8 @@ func walCompactionKeepsAnchor(c *Ctx, r *Report, rule string) {
 		if b, ok := f.Params[2].Type().Underlying().(*types.Basic); !ok || b.Kind() != types.Uint64 {
 			continue
 		}
-		name := strings.ToLower(f.Params[2].Name())
-		if !strings.Contains(name, "until") && !strings.Contains(name, "upto") && !strings.Contains(name, "to") {
+		// a head sweep: the parameter is an exclusive upper bound (some test compares a decoded index with it)
+		if !isHeadSweep(f) {
 			continue
 		}
 		bound := f.Params[2]
@@ -2327,4 +2327,44 @@ func guardedMapNotHandedOut(c *Ctx, r *Report, rule string, pkg, typ, field stri
 	} else {
 		r.OK(rule, pkg+"."+typ, "map-"+field+"-not-handed-out", "-", fmt.Sprintf("%d map-typed return value(s); none is the field itself", n))
 	}
+}
+
+// isHeadSweep: f (receiver, batch, bound uint64) compares something with its bound parameter in the way a sweep of the keys
+// below an exclusive bound does (`index >= bound -> stop`, `index < bound -> collect`); the tail sweep (delete from an index
+// onwards) only seeks to its parameter.
+func isHeadSweep(f *ssa.Function) bool {
+	if len(f.Params) != 3 {
+		return false
+	}
+	bound := f.Params[2]
+	for _, cf := range append([]*ssa.Function{f}, closuresOf(f)...) {
+		for _, ifi := range allIfs(cf) {
+			b, ok := ifi.Cond.(*ssa.BinOp)
+			if !ok {
+				continue
+			}
+			fromBound := func(v ssa.Value) bool {
+				for _, o := range origins(v, originOpt{}) {
+					if o == ssa.Value(bound) {
+						return true
+					}
+					if l, ok := loadOf(o); ok {
+						for _, st := range cellStores(l) {
+							if st.Val == ssa.Value(bound) {
+								return true
+							}
+						}
+					}
+				}
+				return false
+			}
+			switch b.Op {
+			case token.GEQ, token.LSS, token.LEQ, token.GTR:
+				if fromBound(b.X) != fromBound(b.Y) {
+					return true
+				}
+			}
+		}
+	}
+	return false
 }
